@@ -9,8 +9,8 @@ package executors
 import (
 	"time"
 
-	rt "github.com/zeromicro/go-zero/internal/verifrt"
 	"github.com/zeromicro/go-zero/core/timex"
+	rt "github.com/zeromicro/go-zero/internal/verifrt"
 )
 
 const c11Interval = time.Second
@@ -231,16 +231,26 @@ func c11Config() (threshold, mine, theirs, ticks int, panics int, flushFirst boo
 		}
 		return
 	}
-	mine = rt.Choose("mine", 3)
-	theirs = 1 + rt.Choose("theirs", 2)
-	ticks = rt.Choose("ticks", 3)
-	panics = rt.Choose("panics", 3)
-	flushFirst = rt.Choose("flushFirst", 2) == 1
+	// thorough: a curated set of configurations (the full product of all dimensions is ~400
+	// configurations x ~5*10^4 schedules each, beyond any budget)
+	cfgs := []struct {
+		mine, theirs, ticks, panics int
+		flush                       bool
+	}{
+		{2, 1, 0, 0, false}, {2, 1, 0, 0, true}, {2, 1, 0, 1, false}, {2, 1, 0, 2, false},
+		{0, 1, 1, 0, false}, {1, 1, 1, 0, false}, {1, 2, 0, 0, false}, {1, 2, 1, 0, true},
+		{2, 1, 1, 0, false}, {2, 1, 1, 1, false}, {1, 1, 2, 0, false}, {2, 2, 0, 0, false},
+	}
+	c := cfgs[rt.Choose("config", len(cfgs))]
+	mine, theirs, ticks, panics, flushFirst = c.mine, c.theirs, c.ticks, c.panics, c.flush
+	if ticks == 2 && threshold != 1 {
+		rt.Assume(false)
+	}
 	return
 }
 
 //verif:entry tier=quick,thorough steps=4000000 preempt=1 allowdeadlock cover=wait,flush,idlejump,callbackpanic
-//verif:doc PeriodicalExecutor over the real bulkContainer (BulkExecutor): threshold 1..2, the caller adds 2 (thorough 0..2) tasks then (optionally Flush and) Wait, a concurrent producer adds 1 (thorough 1..2) tasks, the clock goroutine delivers 0..2 ticks (quick: 2 ticks only with threshold 1 and one own task) advancing the virtual clock by one interval or by more than idleRound intervals (so the background flusher may quit and be restarted by a later Add); optionally one task makes the execute callback panic. Every task is handed to the callback exactly once, Wait returns only after the callbacks of everything added before it have returned, a panicking callback loses only its batch. Schedules with at most 1 preemption.
+//verif:doc PeriodicalExecutor over the real bulkContainer (BulkExecutor): threshold 1..2, the caller adds 2 tasks (thorough: a curated set of 12 configurations with 0..2 own and 1..2 concurrent tasks) then (optionally Flush and) Wait, a concurrent producer adds 1 task, the clock goroutine delivers 0..2 ticks (quick: 2 ticks only with threshold 1 and one own task) advancing the virtual clock by one interval or by more than idleRound intervals (so the background flusher may quit and be restarted by a later Add); optionally one task makes the execute callback panic. Every task is handed to the callback exactly once, Wait returns only after the callbacks of everything added before it have returned, a panicking callback loses only its batch. Schedules with at most 1 preemption.
 func Verif_C11_Bulk() {
 	w := c11NewWorld()
 	threshold, mine, theirs, ticks, panics, flushFirst := c11Config()
